@@ -113,7 +113,7 @@ PROPS = {
     "C09": {
         "level": "exploration",
         "build": "plain",
-        "tiers": tiers(3000, 75, 120000, 900),
+        "tiers": tiers(3000, 75, 120000, 900, prace=(500, 60, 15000, 600)),
         "rule": "3-5 locations behind core.SimpleLocationProvider; histories of AddFact/RemFact (same fact ids in every location), AddRule/RemRule, EnableRule, "
                 "and SetParents changing the parent lists over time (single path to each ancestor; 1 run in 6 also tries self loops and indirect loops); after "
                 "every operation EVERY location is observed (GetFact on every id, own and inherited search battery, dispatch battery with action values) and "
